@@ -21,7 +21,7 @@ import time
 
 import vlib
 from vlib import cn, cbool, clist
-from props.C09 import ctxcalls
+from props.C09 import ctxcalls, par_check, run_harness_cached
 
 AREA = "Tiering"
 P = "Arc.Tiering.Props"
@@ -226,7 +226,7 @@ HEADER = ("From Coq Require Import List NArith Bool Arith.\nFrom Arc Require Imp
 
 
 def run_impl(cases, tag):
-    out = vlib.run_go_harness("C12", PKG, "^TestVerifTiering$", HARNESS, [to_harness(c) for c in cases], rewrites=REWRITES, tags=TAGS, tag=tag, timeout=2400)
+    out = run_harness_cached("C12", PKG, "^TestVerifTiering$", HARNESS, [to_harness(c) for c in cases], rewrites=REWRITES, tags=TAGS, tag=tag, timeout=2400)
     if len(out) != len(cases):
         raise vlib.TieBroken("C12 harness returned %d results for %d cases" % (len(out), len(cases)))
     for c, o in zip(cases, out):
@@ -241,7 +241,7 @@ def run_impl(cases, tag):
 
 def eval_cases(cases, obs, name):
     terms = [case_to_coq(c, o) for c, o in zip(cases, obs)]
-    return vlib.coq_check_cases("C12", HEADER, "tcase", terms, {"agree": "tcase_agrees", "oracle": "tcase_oracle", "moracle": "tcase_model_oracle"}, chunk=400, name=name)
+    return par_check("C12", HEADER, "tcase", terms, {"agree": "tcase_agrees", "oracle": "tcase_oracle", "moracle": "tcase_model_oracle"}, name)
 
 
 def canon_hash(c):
@@ -288,7 +288,13 @@ def run(res, tier, seed):
     finally:
         res.stage("translate_params", t0)
     res.cov["params"] = params
-    failed = vlib.std_proof_stage(res, "C12", AREA, MODULES, THEOREMS, extra_targets=["theories/Tiering/Obligations.vo"])
+    # the Go harness runs while coqc checks the theorems
+    cases = witness_cases() + gen_cases(rng, 28 if tier == "quick" else 400, tier)
+    from concurrent.futures import ThreadPoolExecutor
+    pool = ThreadPoolExecutor(max_workers=1)
+    t1 = time.time()
+    fut = pool.submit(run_impl, cases, tier)
+    failed = vlib.std_proof_stage(res, "C12", AREA, MODULES, THEOREMS, extra_targets=["gen/Params_Tiering.vo", "theories/Tiering/Obligations.vo"])
     res.cov["trusted_base"] += [
         "process-crash model: each of copy (promoted only when the stream completed - C08), UpdateTier (one SQLite statement) and Delete is atomic and durable once it returns",
         "one (database, measurement) with a fixed set of tracked, migration-eligible files; per-database policies, age thresholds, the 48 h reconciliation window, "
@@ -297,9 +303,12 @@ def run(res, tier, seed):
         "crash points / failures are injected through verif hooks inserted by textual rewrite of the current migrator.go",
         "tools/lib_crash/ctxcalls (go/ast control-context extraction of MigrateFile / ReconcileOrphanedFiles); alist lemmas shared with Arc.Compaction",
     ]
-    t1 = time.time()
-    cases = witness_cases() + gen_cases(rng, 30 if tier == "quick" else 300, tier)
-    out = run_impl(cases, tier)
+    if tier == "thorough" and hasattr(vlib, "coqchk_stage"):
+        ok, _ = vlib.coqchk_stage(res, MODULES)
+        if not ok:
+            failed.append(("coqchk", "coqchk did not accept the compiled development"))
+    out = fut.result()
+    pool.shutdown()
     res.stage("impl_harness", t1)
     t2 = time.time()
     r = eval_cases(cases, out, "Cases_C12_%s" % tier)
